@@ -61,11 +61,6 @@ ATOMS = {
     'Eminofd':  (-1, 'ExpPiecewise', lambda x: min(x[0], 2 * x[1] - 1, 0.25 - 0.5 * x[0]), 'all', True, True, 'd'),
 }
 ATOM_NAMES = list(ATOMS)
-# one atom per class family / compile path (used for the deepest chains of the quick tier)
-REP_ATOMS = {'r': ['abs', 'square', 'exp', 'log', 'pexp', 'plogc', 'maxof', 'minof'],
-             'd': ['norm2', 'quadn', 'exp', 'entropy', 'plog', 'pexpc', 'maxof', 'minof', 'Emaxof', 'Eminof']}
-
-
 def atoms_of(fe):
     c = 'r' if fe == 'ro' else 'd'
     return [a for a in ATOM_NAMES if c in ATOMS[a][6]]
